@@ -591,6 +591,46 @@ def k_export(chk, ctx, rng, n):
                     hit = [m for m in g.migrations if getattr(m, 'source', None) == src and getattr(m, 'dest', None) == dest and abs(m.rate - mr) <= 1e-9 * mr]
                     (chk.k_ok('export') if hit else chk.k_bad('export', dict(inp, source=src, dest=dest), [str(m) for m in g.migrations][:6], mr, 'no migration with the scaled rate'))
 
+def k_names(chk, ctx, rng, n_big):
+    """`output`: the deme names attached to Reorder / Remove records vs the generated propagation rule — every permutation of three
+    populations, a sample of those of four and five"""
+    import itertools
+    dadi = ctx['dadi']; drv = ctx['driver']; Dm = dadi.Demes
+    z = lambda k: [[0.0] * k for _ in range(k)]
+    def grow(d):
+        ops = [dict(op='phi1d', nu=1.0), dict(op='integrate', T=0.002, nu=[('c', 1.0)], M=z(1), frozen=[False])]
+        for k in range(1, d):
+            ops += [dict(op='newpop', props=[1.0] + [0.0] * (k - 1)),
+                    dict(op='integrate', T=0.002, nu=[('c', 1.0 + 0.1 * j) for j in range(k + 1)], M=z(k + 1), frozen=[False] * (k + 1))]
+        return ops
+    perms = [list(p) for p in itertools.permutations(range(3))]
+    for d in (4, 5):
+        allp = [list(p) for p in itertools.permutations(range(d))]
+        perms += [allp[int(i)] for i in rng.choice(len(allp), size=n_big, replace=False)]
+    for o in perms:
+        d = len(o)
+        rm = int(rng.integers(d))
+        ops = grow(d) + [dict(op='reorder', order=o), dict(op='integrate', T=0.002, nu=[('c', 0.5 + 0.2 * j) for j in range(d)], M=z(d), frozen=[False] * d),
+                         dict(op='remove', axis=rm)]
+        S.run_program(dadi, ops, 4)
+        try:
+            Dm.output(Nref=1000.0)
+        except Exception as e:
+            chk.k_skipped += 1; chk.stat('K-names:output-raises'); continue
+        for older, younger in zip(Dm.cache[:-1], Dm.cache[1:]):
+            if not isinstance(younger, (Dm.Reorder, Dm.Remove)): continue
+            names = list(older.deme_ids)
+            num = {nm: 10 + i for i, nm in enumerate(names)}
+            impl = [num.get(x, -1) for x in younger.deme_ids]
+            if isinstance(younger, Dm.Reorder):
+                ans = drv.ask('c16 reordernames %s %s' % (','.join(str(num[x]) for x in names), ','.join(str(x) for x in younger.neworder)))
+                op = 'reordernames'; inp = dict(neworder=list(younger.neworder), older=names, younger=list(younger.deme_ids))
+            else:
+                ans = drv.ask('c16 removenames %s %d' % (','.join(str(num[x]) for x in names), younger.removed))
+                op = 'removenames'; inp = dict(removed=younger.removed, older=names, younger=list(younger.deme_ids))
+            if ans.startswith('ok ') and [int(x) for x in ans.split()[1].split(',')] == impl: chk.k_ok(op)
+            else: chk.k_bad(op, inp, impl, ans, 'deme names after the record differ')
+
 # ------------------------------------------------------------------------------------------------- L3
 def scale_graph(gd, c=1.0, tmul=1.0, unit=None, generation_time=None):
     """the same history with sizes and times multiplied by c and rates divided by c; times further multiplied by tmul and
@@ -772,7 +812,10 @@ def l3_export(chk, ctx, rng, n, budget):
     while done < n and tries < 8 * n:
         tries += 1
         if DEADLINE[0] is not None and time.time() > DEADLINE[0] + 30: chk.stat('stopped:deadline'); break
-        ops, d = S.random_program(rng, max_pops=int(rng.choice([2, 3, 4, 5, 5])), p_reorder=0.3)
+        # three programs in four are free of admixture and of pulse-then-new-population: those touched by the open finding F-16f
+        # (re-import of an exported admixture) are masked by it, the export clause keeps its coverage through the others
+        clean = rng.random() < 0.72
+        ops, d = S.random_program(rng, max_pops=int(rng.choice([2, 3, 3, 4, 5, 5])), p_reorder=0.45, clean=clean)
         pts, dmax = pick_pts(ops)
         cost = prog_cost(ops, pts)
         if cost > budget / 2: chk.stat('skipped:too-slow'); continue
@@ -784,9 +827,23 @@ def l3_export(chk, ctx, rng, n, budget):
         inp = dict(kind='export', key=key, ops=ops, ns=ns, pts=pts, Nref=Nref, generation_time=gt, cost=2 * cost)
         chk.l3(('export', tuple(o['op'] for o in ops), dmax))
         eval_case(chk, dadi, enc(inp))
+        chk.stat('export:programs')
         chk.stat('export:pops=%d' % dmax)
+        if not ({'admixture', 'pulse-then-newpop'} & set(feats)): chk.stat('export:programs-free-of-admixture-and-pulse-then-newpop')
         for x in feats: chk.stat('export:' + x)
         for o in ops: chk.stat('export-op:' + o['op'])
+        for a, b in zip(ops[:-1], ops[1:]):
+            if a['op'] == 'reorder':
+                kind = 'involution' if S.is_involution(a['order']) else 'non-involutive'
+                chk.stat('export-reorder:%dD:%s:%s' % (len(a['order']), kind, 'then-integrate' if b['op'] == 'integrate' else 'other'))
+        if ops[-1]['op'] == 'reorder':
+            chk.stat('export-reorder:%dD:%s:final' % (len(ops[-1]['order']), 'involution' if S.is_involution(ops[-1]['order']) else 'non-involutive'))
+    n_ = chk.stats.get('export:programs', 0)
+    if n_:
+        share = chk.stats.get('export:programs-free-of-admixture-and-pulse-then-newpop', 0) / float(n_)
+        chk.stats['export:share-free-of-admixture-and-pulse-then-newpop'] = round(share, 3)
+        chk.notes.append('export programs free of admixture and of pulse-then-newpop: %d of %d (%.0f %%)' % (
+            chk.stats.get('export:programs-free-of-admixture-and-pulse-then-newpop', 0), n_, 100 * share))
 
 # ------------------------------------------------------------------------------------------------- fixed edge cases
 def edge_graph(kind):
@@ -856,6 +913,29 @@ EDGE_EXPORT['pulse5D'] = EDGE_EXPORT['pulse4D-into-4'][:8] + [
     dict(op='pulse', dest=1, props=[0.15, 0.0, 0.0, 0.1, 0.0]),
     dict(op='integrate', T=0.02, nu=[('c', 1.0), ('c', 0.7), ('c', 1.4), ('c', 0.5), ('c', 0.9)], M=[[0] * 5] * 5, frozen=[False] * 5)]
 
+def _reorder_edge(order):
+    """three (four) populations with distinct sizes and asymmetric migration, re-ordered by a permutation that is not its own inverse,
+    then integrated with sizes / migrations that tell the populations apart"""
+    d = len(order)
+    z = lambda k: [[0.0] * k for _ in range(k)]
+    ops = [dict(op='phi1d', nu=1.0), dict(op='integrate', T=0.05, nu=[('c', 1.5)], M=z(1), frozen=[False]),
+           dict(op='newpop', props=[1.0]), dict(op='integrate', T=0.06, nu=[('c', 0.8), ('c', 2.0)], M=[[0, 0.7], [0.2, 0]], frozen=[False] * 2),
+           dict(op='newpop', props=[0.0, 1.0]),
+           dict(op='integrate', T=0.08, nu=[('c', 0.3), ('c', 1.0), ('c', 3.0)], M=[[0, 0.5, 0], [0, 0, 1.2], [0.9, 0, 0]], frozen=[False] * 3)]
+    if d == 4:
+        ops += [dict(op='newpop', props=[1.0, 0.0, 0.0]),
+                dict(op='integrate', T=0.05, nu=[('c', 0.3), ('c', 1.0), ('c', 3.0), ('c', 0.6)], M=[[0, 0.5, 0, 0.3], [0, 0, 1.2, 0], [0.9, 0, 0, 0], [0, 1.4, 0, 0]], frozen=[False] * 4)]
+    sizes = [0.5, 0.25, 1.7, 0.9][:d]
+    M = [[0.0 if i == j else round(0.2 + 0.45 * ((3 * i + 5 * j) % 7), 3) for j in range(d)] for i in range(d)]
+    ops += [dict(op='reorder', order=list(order)),
+            dict(op='integrate', T=0.1, nu=[('e', sizes[0], 4.0)] + [('c', x) for x in sizes[1:]], M=M, frozen=[False] * d)]
+    return ops
+
+EDGE_EXPORT['reorder-231'] = _reorder_edge([1, 2, 0])
+EDGE_EXPORT['reorder-312'] = _reorder_edge([2, 0, 1])
+EDGE_EXPORT['reorder-2341'] = _reorder_edge([1, 2, 3, 0])
+EDGE_EXPORT['reorder-231-final'] = _reorder_edge([0, 1, 2])[:-2] + [dict(op='reorder', order=[1, 2, 0])]
+
 def edge_cases():
     out = []
     for kind in ('slice-linear', 'slice-exponential', 'only-ancient-descendants', 'five-demes-frozen'):
@@ -868,7 +948,7 @@ def edge_cases():
     for kind, ops in EDGE_EXPORT.items():
         d = max(len(o['nu']) for o in ops if o['op'] == 'integrate')
         key = 'export' + ''.join(':' + x for x in export_features(ops))
-        out.append(dict(kind='export', key=key, which=kind, ops=ops, ns=[2] * d, pts={2: 12, 3: 10, 4: 7, 5: 6}[d], Nref=1000.0, generation_time=25.0, cost=0.05))
+        out.append(dict(kind='export', key=key, which=kind, ops=ops, ns=[2 + (i % 3) for i in range(d)], pts={2: 12, 3: 10, 4: 7, 5: 6}[d], Nref=1000.0, generation_time=25.0, cost=0.05))
     return out
 
 def l3_edges(chk, ctx):
@@ -934,6 +1014,7 @@ def run(chk, ctx):
         timed('K wiring', k_wiring, chk, ctx, R('k-wiring'))
         timed('K events', k_events, chk, ctx, R('k-events'))
         timed('K export', k_export, chk, ctx, R('k-export'), 6 if quick else 40)
+        timed('K names', k_names, chk, ctx, R('k-names'), 8 if quick else 24)
     if not any(e is not None for e in chk.translate.values()):
         guard_generated('after the correspondence')
     timed('L3 edges', l3_edges, chk, ctx)
